@@ -261,7 +261,7 @@ def correspond(ctx):
     """suite e2e: what a real method receives / a real proxy call returns, vs argPath / kwPath / resPath of the model
     (nested positions: the element of the model's result for the enclosing list)"""
     from props import c01
-    vals = _e2e_values(ctx, "e2e-corr", ctx.n(150, 1500))
+    vals = _e2e_values(ctx, "e2e-corr", ctx.n(150, 700))
     lines, reals, cases = [], [], []
     rigs = Rigs()
     try:
@@ -367,7 +367,7 @@ def check_value(ctx, ser, v, tr=None):
 
 def serializer_oracle(ctx):
     from props import c01
-    n = ctx.n(4000, 60000)
+    n = ctx.n(4000, 30000)
     rng = ctx.sub_rng("oracle-search" if ctx.search_mode else "oracle")
     vals = list(c01._corpus_values())
     for i in range(n):
@@ -389,7 +389,7 @@ def serializer_oracle(ctx):
 def e2e_oracle(ctx):
     """positions x compression on the whole stack, real code only"""
     from props import c01
-    vals = list(c01._corpus_values()) + _e2e_values(ctx, "e2e-oracle-search" if ctx.search_mode else "e2e-oracle", ctx.n(150, 1200))
+    vals = list(c01._corpus_values()) + _e2e_values(ctx, "e2e-oracle-search" if ctx.search_mode else "e2e-oracle", ctx.n(150, 600))
     rigs = Rigs()
     try:
         for comp in (False, True):
